@@ -295,7 +295,15 @@ def load_effects_ref():
                 if k in ('F', 'U', 'D'):
                     e[k] = set(vals)
                 elif k in ('R', 'W'):
-                    e[k] = vals
+                    out_ = []
+                    for v_ in vals:
+                        if v_ == 'POP':
+                            out_ += (['float_st%d' % i for i in range(1, 8)] if k == 'R' else ['float_st%d' % i for i in range(8)]) + ['float_stack_ptr']
+                        elif v_ == 'PUSH':
+                            out_ += (['float_st%d' % i for i in range(0, 7)] if k == 'R' else ['float_st%d' % i for i in range(8)]) + ['float_stack_ptr']
+                        else:
+                            out_.append(v_)
+                    e[k] = out_
                 elif k == 'Z':
                     e['Z'] = v
                 else:
